@@ -311,10 +311,30 @@ func (c *RollingFileAppender) clearExpiredFiles() {
 			continue
 		}
 		if info.ModTime().Before(expiration) {
+			if c.inUse(entry.Name(), expiration) {
+				continue
+			}
 			filePath := fmt.Sprintf("%s/%s", c.FileDir, entry.Name())
 			_ = os.Remove(filePath)
 		}
 	}
+}
+
+// inUse reports whether the named file of this appender is the one being
+// written, or has been written to since the cleanup looked at it. A cleanup
+// runs in the background and may run late: after a quiet period the successor
+// of the current file may have failed to be created, so that an old file is
+// (or was until a moment ago) still receiving data. Taking the lock waits for
+// the writes in flight; after that only the current file can receive data, so
+// what Stat reports for any other file is final.
+func (c *RollingFileAppender) inUse(name string, expiration time.Time) bool {
+	c.mu.Lock()
+	defer c.mu.Unlock()
+	if file := c.file.Load(); file != nil && filepath.Base(file.Name()) == name {
+		return true
+	}
+	info, err := os.Stat(fmt.Sprintf("%s/%s", c.FileDir, name))
+	return err != nil || !info.ModTime().Before(expiration)
 }
 
 // isRotationSuffix reports whether s is a timestamp
